@@ -17,11 +17,25 @@ SHARD = 80
 
 
 def touched(st):
+    """outer extent of the positions a step refers to"""
     if hasattr(st, "from_"):
         return st.from_, st.to
     if hasattr(st, "pos"):
         return st.pos, st.pos + 1
     return None
+
+
+def touched_parts(st):
+    """the parts of the document a step touches: a replace-around step preserves its gap untouched"""
+    if isinstance(st, ReplaceAroundStep):
+        return [(st.from_, st.gap_from), (st.gap_to, st.to)]
+    t = touched(st)
+    return [t] if t else []
+
+
+def parts_separated(sa, sb):
+    """every touched part of one step is at least one untouched token away from every part of the other"""
+    return all(pa[1] < pb[0] or pb[1] < pa[0] for pa in touched_parts(sa) for pb in touched_parts(sb))
 
 
 def one_step(rng, g, doc, docs, lo, hi):
@@ -88,6 +102,10 @@ def _do(rng, g, tr, docs, op, a, c):
         if not wr:
             raise TransformError("no")
         tr.wrap(rg, wr)
+    elif op == "set_block_type":
+        names = [n for n, t in sc.nodes.items() if t.is_textblock]
+        ty = sc.nodes[rng.choice(names)]
+        tr.set_block_type(a, c, ty, g.attrs_for(ty))
     elif op == "set_node_attribute":
         pn = [(p, n) for p, n in S.all_positions_with_nodes(doc) if n.type.attrs and a <= p <= c]
         if not pn:
@@ -107,7 +125,7 @@ def commute_case(fam, doc, sa, sb, kind):
     a = S.Applied(info, doc, sa)
     bb = S.Applied(info, doc, sb)
     ta, tb = touched(sa), touched(sb)
-    separated = ta is None or tb is None or ta[1] < tb[0] or tb[1] < ta[0]
+    separated = parts_separated(sa, sb)
 
     def rebased(st, over):
         try:
@@ -156,6 +174,29 @@ def generate(rng: random.Random, tier: str):
                 if rng.random() < 0.5:
                     sa, sb = sb, sa
                 yield commute_case(fam, doc, sa, sb, "separated-ops")
+            # an edit strictly inside the preserved gap of a wrap / lift / retype step
+            for _ in range(6 if quick else 25):
+                tr = Transform(doc)
+                try:
+                    _do(rng, g, tr, docs, rng.choice(["wrap", "lift", "set_block_type"]), *S.rand_range(rng, doc))
+                except Exception:  # noqa: BLE001
+                    continue
+                if len(tr.steps) != 1 or not isinstance(tr.steps[0], ReplaceAroundStep):
+                    continue
+                sa = tr.steps[0]
+                if sa.gap_to - sa.gap_from < 3:
+                    continue
+                sb = one_step(rng, g, doc, docs, sa.gap_from + 1, sa.gap_to - 1)
+                if sb is None or not parts_separated(sa, sb):
+                    continue
+                # a step whose slice is open on a side (split, open paste) re-opens ancestors: it touches the very
+                # open/close tokens the outer step replaces, so it is not "separated" from it (DESIGN.md, C17)
+                if isinstance(sb, ReplaceAroundStep) or (isinstance(sb, ReplaceStep) and (sb.slice.open_start or sb.slice.open_end)):
+                    continue
+                if rng.random() < 0.5:
+                    yield commute_case(fam, doc, sa, sb, "inside-gap")
+                else:
+                    yield commute_case(fam, doc, sb, sa, "inside-gap")
 
 
 def rebuild(desc):
